@@ -3,7 +3,7 @@
    challenges), then ONE pairing product on the randomizer-weighted sums (randomizer 1, then 128-bit values from the
    verifier's RNG).  Free-module view as in PST13H. *)
 From Coq Require Import List Arith NArith Bool.
-From PC Require Import Base.Field Base.Result Base.Poly Schemes.LC Schemes.PST13 Schemes.IPA Schemes.PST13H Schemes.DefaultBatch.
+From PC Require Import Base.Field Base.Result Base.Poly Base.OrdMap Schemes.LC Schemes.PST13 Schemes.IPA Schemes.PST13H Schemes.DefaultBatch.
 Import ListNotations.
 Local Open Scope nat_scope.
 
@@ -70,3 +70,69 @@ Section PST13Batch.
     (* prod_j e(-total_w[j], beta_j h) * e(total_c, h) = 1 *)
     Ok (gvzero (gvsub total_c (bw_sum betas 0 (pb_w a))), rest, draws).
 End PST13Batch.
+
+(* ---------------- PST13 open_combinations / check_combinations (Marlin's generic ones; no degree bounds) ---------------- *)
+Section PST13LC.
+  Context {FO : FieldOps}.
+  Local Open Scope F_scope.
+
+  (* one combination on the prover's side: polynomial, blinding polynomial, commitment *)
+  Fixpoint plc_prover_loop (lm : list (N * (mpoly * option mpoly * gv))) (terms : lc) (p r : mpoly) (c : gv)
+    : res (mpoly * mpoly * gv) :=
+    match terms with
+    | [] => Ok (p, r, c)
+    | (_, TOne) :: t => plc_prover_loop lm t p r c
+    | (coeff, TPoly l) :: t =>
+      match OrdMap.lookup N.compare l lm with
+      | None => Err EMissingPolynomial
+      | Some (q, blind, cm) =>
+        plc_prover_loop lm t (madd_scaled p coeff q)
+                        (match blind with Some b => madd_scaled r coeff b | None => r end)
+                        (gvadd c (gvscale coeff cm))
+      end
+    end.
+
+  Fixpoint plc_prover_all (lm : list (N * (mpoly * option mpoly * gv))) (lcs : list (N * lc)) : res (list (N * PItem)) :=
+    match lcs with
+    | [] => Ok []
+    | (lab, terms) :: t =>
+      do a <- plc_prover_loop lm terms [] [] [];
+      let '(p, r, _) := a in
+      do rest <- plc_prover_all lm t;
+      Ok ((lab, (p, Some r)) :: rest)
+    end.
+
+  Definition pst_open_combinations (nv s : nat) (betas : list F) (lcs : list (N * lc)) (items : list (N * (mpoly * option mpoly * gv)))
+             (qs : list query) (chal : list F) : res (list PProof * list F) :=
+    do its <- plc_prover_all (of_list N.compare items) lcs;
+    pst_batch_open nv s betas its qs chal.
+
+  Fixpoint plc_verifier_loop (cm : list (N * gv)) (lc_label : N) (terms : lc) (ev : list (N * point * F)) (c : gv)
+    : res (list (N * point * F) * gv) :=
+    match terms with
+    | [] => Ok (ev, c)
+    | (coeff, TOne) :: t =>
+      plc_verifier_loop cm lc_label t
+        (map (fun kv => if N.eqb (fst (fst kv)) lc_label then (fst kv, snd kv - coeff) else kv) ev) c
+    | (coeff, TPoly l) :: t =>
+      match OrdMap.lookup N.compare l cm with
+      | None => Err EMissingPolynomial
+      | Some x => plc_verifier_loop cm lc_label t ev (gvadd c (gvscale coeff x))
+      end
+    end.
+
+  Fixpoint plc_verifier_all (cm : list (N * gv)) (lcs : list (N * lc)) (ev : list (N * point * F))
+    : res (list (N * gv) * list (N * point * F)) :=
+    match lcs with
+    | [] => Ok ([], ev)
+    | (lab, terms) :: t =>
+      do r <- plc_verifier_loop cm lab terms ev [];
+      do rest <- plc_verifier_all cm t (fst r);
+      Ok ((lab, snd r) :: fst rest, snd rest)
+    end.
+
+  Definition pst_check_combinations (nv : nat) (betas : list F) (lcs : list (N * lc)) (cs : list (N * gv)) (qs : list query)
+             (ev : list (N * point * F)) (proofs : list PProof) (chal vtape : list F) : res (bool * list F * nat) :=
+    do r <- plc_verifier_all (of_list N.compare cs) lcs ev;
+    pst_batch_check nv betas (fst r) qs (snd r) proofs chal vtape.
+End PST13LC.
